@@ -419,6 +419,8 @@ func runC11(w *World) *Result {
 		if startsIdent && onlyRunesIn(re.Tree, identRest) {
 			if endsWithWordBoundary(re.Tree) {
 				r.Ok("R-C11-regex", key+":boundary", pos, "identifier-like probe ends in a word boundary")
+			} else if endsWithGreedyClass(re.Tree, identRest) {
+				r.Ok("R-C11-regex", key+":boundary", pos, "identifier-like probe ends in a greedy repetition of the whole identifier class: its match is maximal, no identifier character can follow it")
 			} else {
 				r.Bad("R-C11-regex", key+":boundary", pos, "probe matches identifier-like words and runs before the identifier arm but has no trailing word boundary: an identifier starting with such a word (trueish) is split")
 			}
@@ -483,6 +485,10 @@ func runC11(w *World) *Result {
 	}
 	arms := probeArms(loop)
 	r.Analysed["probe_arms"] = len(arms)
+	charTestAt := map[token.Pos]*CharTest{}
+	for _, t := range LexCharTests(w) {
+		charTestAt[t.At] = t
+	}
 	for i, arm := range arms {
 		// which regexes belong to the arm's condition/init
 		canNL := false
@@ -513,6 +519,10 @@ func runC11(w *World) *Result {
 						return true
 					}
 				}
+			}
+			// any other spelling of a character test (helper predicate, character list …)
+			if t, ok := charTestAt[c.Lparen]; ok && !t.Set.Has('\n') {
+				return true
 			}
 			return false
 		}) {
@@ -1785,8 +1795,39 @@ func ClassTestRule(w *World, r *Result, rule string) {
 		}
 	}
 	if n == 0 {
-		r.Bad(rule, "lexclass:none", "-", "no character-class test found in the lexer")
+		// a lexer that decides by anchored probes on the rest of the input only has no class test
+		// that could succeed at the end of the input; the probes are judged by the progress rule
+		r.Triv(rule, "lexclass:none", "-", "no character-class test in the lexer (anchored probes only)")
 	}
+}
+
+// endsWithGreedyClass: the expression ends in class* / class+ (greedy) where the class holds
+// every rune of the given ranges: whatever follows the match is not in the class.
+func endsWithGreedyClass(t *syntax.Regexp, ranges []rune) bool {
+	t = t.Simplify()
+	last := t
+	for last.Op == syntax.OpConcat || last.Op == syntax.OpCapture {
+		if len(last.Sub) == 0 {
+			return false
+		}
+		last = last.Sub[len(last.Sub)-1]
+	}
+	if (last.Op != syntax.OpStar && last.Op != syntax.OpPlus) || last.Flags&syntax.NonGreedy != 0 || last.Sub[0].Op != syntax.OpCharClass {
+		return false
+	}
+	cc := last.Sub[0]
+	for i := 0; i+1 < len(ranges); i += 2 {
+		covered := false
+		for j := 0; j+1 < len(cc.Rune); j += 2 {
+			if cc.Rune[j] <= ranges[i] && ranges[i+1] <= cc.Rune[j+1] {
+				covered = true
+			}
+		}
+		if !covered {
+			return false
+		}
+	}
+	return len(ranges) > 0
 }
 
 // regexNullable: can the expression match the empty string (anywhere, i.e. unanchored search)?
